@@ -120,3 +120,68 @@ func dumpTrace(t *testing.T, w *vnet.World) {
 		t.Log(l)
 	}
 }
+
+// Scripted scenario: sway at the COMMIT timeout. Members 1,2,3 prepare and commit
+// [b,t] in round 0 but nobody sees a COMMIT quorum; member 4 (other input, proposal
+// = base) commits bottom, sees COMMITs for [b,t] and must carry that value (not a
+// candidate of its own, but possibly decided) into round 1; all four must end up
+// deciding [b,t] without any monitor complaint.
+func TestC07ScenarioSwayAtCommitTimeout(t *testing.T) {
+	cfg := vnet.ManualConfig([]int64{10, 10, 10, 10}, [][]int{{0}, {0}, {0}, {1}})
+	w, fails := scripted(cfg)
+	for i := range w.Nodes {
+		w.Start(i)
+	}
+	for i := range w.Nodes {
+		w.FireAlarm(i) // INITIAL -> QUALITY
+	}
+	all := func(ph gpbft.Phase, round uint64) int {
+		return w.DeliverMatching(func(p *vnet.Pending) bool { return p.Msg.Vote.Phase == ph && p.Msg.Vote.Round == round })
+	}
+	all(gpbft.QUALITY_PHASE, 0)
+	for i := range w.Nodes {
+		w.FireAlarm(i) // QUALITY timeout: 1,2,3 prepare [b,t], 4 prepares the base
+	}
+	all(gpbft.PREPARE_PHASE, 0) // 1,2,3 see the PREPARE quorum and commit [b,t]
+	w.FireAlarm(3)              // member 4: PREPARE timeout, commits bottom
+	// COMMITs of round 0: member 3's is withheld from everybody, so nobody sees a quorum
+	w.DeliverMatching(func(p *vnet.Pending) bool {
+		return p.Msg.Vote.Phase == gpbft.COMMIT_PHASE && p.Msg.Vote.Round == 0 && p.Msg.Sender != 3
+	})
+	for i, n := range w.Nodes {
+		if n.P.Progress().Round == 0 {
+			w.FireAlarm(i) // COMMIT timeout: round 1, CONVERGE
+		}
+	}
+	for _, n := range w.Nodes {
+		if pr := n.P.Progress(); pr.Round != 1 || pr.Phase != gpbft.CONVERGE_PHASE {
+			dumpTrace(t, w)
+			t.Fatalf("HARNESS: node %d is at %+v, expected round 1 CONVERGE", n.ID, pr)
+		}
+	}
+	all(gpbft.CONVERGE_PHASE, 1)
+	for i := range w.Nodes {
+		w.FireAlarm(i) // CONVERGE timeout: everybody prepares the winner
+	}
+	if w.Stats.Sways == 0 {
+		dumpTrace(t, w)
+		t.Fatalf("HARNESS: the scenario did not exercise the sway (no sway logged)")
+	}
+	cr := w.Close(nil, 4000, 0)
+	w.CheckAgreement()
+	w.CheckValidity()
+	w.CheckDecisionProofs()
+	for _, f := range *fails {
+		vev.Fail(t, f.id, f.sig, "scripted sway-at-COMMIT-timeout scenario: %s", f.msg)
+	}
+	if !cr.AllDecided {
+		vev.Fail(t, "C07", "C07/scenario/sway-not-decided", "scripted sway-at-COMMIT-timeout scenario: not every participant decided")
+	}
+	want := vnet.PathChain(cfg.Root, []int{0})
+	for _, n := range w.Nodes {
+		if d := n.Decided[cfg.First]; d == nil || !d.J.Vote.Value.Eq(want) {
+			vev.Fail(t, "C07", "C07/scenario/sway-wrong-decision", "scripted sway-at-COMMIT-timeout scenario: node %d did not decide the value that three of four prepared and committed", n.ID)
+		}
+	}
+	vev.Case("C07", vev.Digest("scenario-sway-by-converge"), true, "regression")
+}
